@@ -101,7 +101,24 @@ func corrupt(e *core.Env, tp *core.Tape, base *m.Address, allowEasing, allowHuge
 	p := presented{pa: base.PublicAddress, priv: base.PrivateKey}
 	p.pa.PublicKey = append(ed25519.PublicKey(nil), base.PublicKey...)
 	for {
-		switch tp.Intn(11) {
+		switch tp.Intn(12) {
+		case 11: // a real key pair under a key-type name nobody knows, its address honestly derived
+			// from that name and key: everything fits together, only the type does not exist
+			name := []crop.KeyPairType{"NoSuchKeyType", "ed25519", "Ed25519 ", "X25519", "RSA"}[tp.Intn(5)]
+			ctr := uint64(tp.Intn(1 << 20))
+			for c := uint64(0); ; c++ {
+				pub, priv := ident.FromCounter(ident.Roaming, 2_000_000+ctr*4096+c)
+				ip, err := m.DigestToAddress(m.AddressDigestAlg, name, pub, 0)
+				if err == nil && m.GetAddressType(ip) == m.TypeGeoMarked {
+					p.pa.IP, p.pa.Type, p.pa.PublicKey, p.pa.Easing, p.priv = ip, name, pub, 0, priv
+					break
+				}
+				if c > 200000 {
+					e.Infra("no identity found for key type %q", name)
+				}
+			}
+			p.what = "unknown key-type name with an address derived from it"
+			e.Probe("unknown_key_type_with_matching_address")
 		case 10: // same 16 bytes, but a scoped address: not the digest, not inside fd00::/8
 			p.pa.IP = p.pa.IP.WithZone([]string{"x", "eth0", "1", "fd00"}[tp.Intn(4)])
 			p.what = "address carries an IPv6 zone"
@@ -477,6 +494,16 @@ func run(e *core.Env) {
 				PrivateKey: hex.EncodeToString(pr.priv), Easing: pr.pa.Easing}
 			if pr.pa.IP.IsValid() {
 				st.IP = pr.pa.IP.String()
+			}
+			if pr.valid && tp.Chance(1, 5) {
+				// key fields of odd sizes in the stored form (a truncated or hand-edited file)
+				n := []int{0, 1, 10, 31, 32, 63, 65}[tp.Intn(7)]
+				st.PrivateKey = hex.EncodeToString(append(make([]byte, 0, 65), append(append([]byte(nil), pr.priv...), 0)...)[:n])
+				if tp.Chance(1, 2) {
+					st.PublicKey = ""
+				}
+				pr.valid, pr.what = false, fmt.Sprintf("private key of %d bytes in the stored form", n)
+				e.Probe("stored_form_with_odd_key_sizes")
 			}
 			if pr.valid && tp.Chance(1, 4) {
 				// private key that does not belong to the public key
